@@ -16,4 +16,5 @@ for c in sys.argv[2:]:
             for j in range(i, min(i + 3, len(lines))):
                 if j not in seen and lines[j].strip():
                     seen.add(j); out.append(lines[j])
-        print('\n'.join(out[:25]))
+        print('\n'.join(out[:12]))
+        break
